@@ -72,6 +72,11 @@ def Assumed(key: str = "", **kw) -> Contract:
     return Contract(key=key, **kw)
 
 
+# Heap fields that a "*" modifies clause does NOT cover.  For a proved contract with modifies=["*"] this is an
+# obligation (frame[<field>]); for an Assumed contract it is part of the assumption.  Each entry is backed by a
+# structural obligation (contracts/structural.py) that the field is only stored to in the named functions.
+PROTECTED_FIELDS: Dict[str, str] = {}
+
 REGISTRY: Dict[str, Contract] = {}
 SPEC_LIB: Dict[str, Any] = {}  # spec functions: name -> callable(ex, st, [Val...]) -> Val
 
